@@ -10,6 +10,7 @@ import (
 	"os/exec"
 	"path/filepath"
 	"testing"
+	"time"
 
 	"github.com/gregoryv/mq"
 	"pgregory.net/rapid"
@@ -45,6 +46,8 @@ type caseC11 struct {
 	// number of times": counters, quotas and caches that only change
 	// behaviour after many calls).
 	Repeat int `json:"repeat,omitempty"`
+	// Pause: found by the "after a pause" stage (the whole stage is re-run on replay).
+	Pause bool `json:"pause,omitempty"`
 }
 
 var roOpNames = []string{"WriteTo", "String", "Dump", "WellFormed", "Accessors", "decode another packet"}
@@ -73,6 +76,12 @@ func checkC11(c caseC11) (frame []byte, sig, msg string) {
 		return mustJSON(vf.Failure{Property: "C11", Kind: "hang", Case: mustJSON(c), Signature: "hang", Message: "a library call made for this case did not return"})
 	})
 	defer guard.SetCurrent(nil)
+	if c.Pause {
+		if _, msg := pauseStage(); msg != "" {
+			return nil, "clock-dependent", msg
+		}
+		return nil, "", ""
+	}
 	m, err := unpackModel(c.ModelGob)
 	if err != nil {
 		return nil, "harness", "harness: " + err.Error()
@@ -218,6 +227,17 @@ func TestC11(t *testing.T) {
 		}
 	}
 
+	// after a pause (shard 0): see pauseStage
+	if *vf.Shard == 0 {
+		n, msg := pauseStage()
+		for k := 0; k < n; k++ {
+			r.Case(vf.FPs("pause", fmt.Sprint(k)), true, "after-a-pause", func() interface{} { return "packet " + fmt.Sprint(k) + " of the pause stage" })
+		}
+		if msg != "" {
+			r.Fail("encode", caseC11{Model: "pause stage", Pause: true}, "clock-dependent", "%s", msg)
+		}
+	}
+
 	var forChildren []caseC11
 	var firstEnc [][]byte
 	wantChildren := vf.N(3200, 100000)
@@ -338,4 +358,56 @@ func c11Child(t *testing.T) {
 	if err := os.WriteFile(*c11Out, ob, 0o644); err != nil {
 		t.Fatal(err)
 	}
+}
+
+// pauseStage: packets (built and decoded, with every interval-like property
+// set) are encoded, the process sleeps for a good second and encodes them
+// again - the bytes do not depend on the clock. It returns the number of
+// packets and a message if one of them changed.
+func pauseStage() (int, string) {
+	type held struct {
+		p     mq.ControlPacket
+		first []byte
+		desc  string
+	}
+	var hs []held
+	for _, f := range fuzzSeeds()[:30] {
+		m, err := ref.DecodeStrict(f)
+		if err != nil {
+			continue
+		}
+		switch m.Type {
+		case model.PUBLISH:
+			m.MessageExpiry = 3600
+		case model.CONNECT:
+			m.SessionExpiry, m.WillDelay, m.KeepAlive = 7200, 30, 60
+			if m.Will != nil {
+				m.Will.MessageExpiry = 600
+			}
+		case model.CONNACK:
+			m.SessionExpiry, m.ServerKeepAlive = 7200, 120
+		}
+		m.Normalize()
+		frame := ref.Canonical(&m)
+		if q, err, pan := read(frame); pan == nil && err == nil && q != nil {
+			b, _, _ := api.Encode(q)
+			hs = append(hs, held{q, b, "decoded " + m.String()})
+		}
+		if m.Type == model.DISCONNECT && !api.DisconnectHasSetters() {
+			continue
+		}
+		var bp mq.ControlPacket
+		if pan := guard.Call(func() { bp = api.BuildDefault(&m) }); pan == nil && bp != nil {
+			b, _, _ := api.Encode(bp)
+			hs = append(hs, held{bp, b, "built " + m.String()})
+		}
+	}
+	time.Sleep(1200 * time.Millisecond)
+	for _, h := range hs {
+		b, _, _ := api.Encode(h.p)
+		if !bytes.Equal(b, h.first) {
+			return len(hs), fmt.Sprintf("the same packet encodes differently 1.2 s later:\n first %s\n later %s\n%s", hx(h.first), hx(b), h.desc)
+		}
+	}
+	return len(hs), ""
 }
